@@ -90,6 +90,8 @@ def op? : Sexp → Option (Op Sexp (PR Sexp))
     | "pop", [] => some .pop0
     | "popint", i :: d => do pure (.popInt (← i.int?) (← optVal? d))
     | "popname", .str n :: d => do pure (.popName n (← optVal? d))
+    | "popbadkw", [] => some .popBadKw
+    | "setslicescalar", [a, b, c] => do pure (.setSliceScalar (← slice? a b c))
     | "insert", [i, v] => do pure (.insert (← i.int?) v)
     | "append", [v] => some (.append v)
     | "extendlist", [.list vs] => some (.extendList vs)
